@@ -35,7 +35,8 @@ theorem mixin_keyed {a b : Operand} {ka kb : Key} (hc : Coh a b) (ha : a.key? = 
 /-- the method of an interface answers every operator by the key comparison, against anything that has a key -/
 theorem methodPy_iface {i : Nat} {ka kb : Key} {b : Operand} (op : Cmp) (hc : Coh (.iface i ka) b)
     (hb : b.key? = some kb) : methodPy op (.iface i ka) b = some (pyOp op ka kb) := by
-  unfold methodPy
+  show methodPy0 op (.iface i ka) b = _
+  unfold methodPy0
   by_cases hs : (Operand.iface i ka).same b = true
   · have := hc hs; subst this
     simp only [Operand.key?] at hb; cases hb
@@ -136,7 +137,7 @@ theorem C12_none_last (x : Operand) (hx : x.isSpec = true) :
     binop methodPy .gt .none x = .bool true ∧ binop methodPy .ge .none x = .bool true ∧
     binop methodPy .eq .none x = .bool false ∧ binop methodPy .ne .none x = .bool true := by
   cases x <;> simp [Operand.isSpec] at hx <;>
-    simp [binop, methodPy, objectMethod, mixinCompare, Operand.same, Operand.ident, swapOp, intOp]
+    simp [binop, methodPy, methodPy0, objectMethod, mixinCompare, Operand.same, Operand.ident, swapOp, intOp]
 
 /-- interfaces and class specifications are ordered together by the same key … -/
 theorem C12_mixed_order (a b : Operand) (ka kb : Key) (ha : a.isSpec = true) (hb : b.isSpec = true)
@@ -158,9 +159,160 @@ theorem C12_impl_identity (i j : Nat) (ka kb : Key) :
     binop methodPy .eq (.impl i ka) (.impl j kb) = .bool (decide (i = j)) ∧
     binop methodPy .ne (.impl i ka) (.impl j kb) = .bool (decide (i ≠ j)) := by
   by_cases h : i = j
-  · subst h; simp [binop, methodPy, objectMethod, Operand.same, Operand.ident]
+  · subst h; simp [binop, methodPy, methodPy0, objectMethod, Operand.same, Operand.ident]
   · have h' : ¬ j = i := fun e => h e.symm
-    simp [binop, methodPy, objectMethod, Operand.same, Operand.ident, swapOp, h, h']
+    simp [binop, methodPy, methodPy0, objectMethod, Operand.same, Operand.ident, swapOp, h, h']
+
+/-! ## interfaces whose `__name__` is `None` (docless constructor call with a blank in the name) -/
+theorem anonCompare_anon {i j : Nat} {m m2 : String} (hc : Coh (.anon i m) (.anon j m2)) :
+    anonCompare (.anon i m) (.anon j m2) m = some (compare3 ("", m) ("", m2)) := by
+  unfold anonCompare
+  by_cases hs : (Operand.anon i m).same (.anon j m2) = true
+  · have := hc hs; cases this; simp [hs, compare3_self]
+  · simp [hs]
+
+theorem methodPy_anon {i j : Nat} {m m2 : String} (op : Cmp) (hc : Coh (.anon i m) (.anon j m2)) :
+    methodPy op (.anon i m) (.anon j m2) = some (pyOp op ("", m) ("", m2)) := by
+  show methodPy0 op (.anon i m) (.anon j m2) = _
+  unfold methodPy0
+  by_cases hs : (Operand.anon i m).same (.anon j m2) = true
+  · have := hc hs; cases this
+    by_cases hne : op = .ne
+    · subst hne; simp [hs, pyOp_self, intOp]
+    · simp only [hne, false_and, if_false]
+      rw [anonCompare_anon (fun _ => rfl)]; rfl
+  · have : ¬ (op = Cmp.ne ∧ (Operand.anon i m).same (.anon j m2) = true) := fun h => hs h.2
+    simp only [this, if_false]
+    rw [anonCompare_anon hc]; rfl
+
+/-- among `None`-named interfaces every operator is the comparison of the pairs `(None, module)`: the modules decide -/
+theorem C12_anon_order (op : Cmp) (i j : Nat) (m m2 : String) (hc : Coh (.anon i m) (.anon j m2)) :
+    binop methodPy op (.anon i m) (.anon j m2) = .bool (pyOp op ("", m) ("", m2)) := by
+  unfold binop; rw [methodPy_anon op hc]
+
+/-- … equal exactly when the pairs `(None, module)` are equal … -/
+theorem C12_anon_eq_iff (i j : Nat) (m m2 : String) (hc : Coh (.anon i m) (.anon j m2)) :
+    binop methodPy .eq (.anon i m) (.anon j m2) = .bool (decide (m = m2)) := by
+  rw [C12_anon_order .eq i j m m2 hc]
+  congr 1
+  by_cases h : m = m2
+  · subst h; simp [(py_eq_iff ("", m) ("", m)).mpr rfl]
+  · simp only [h, decide_false]
+    cases he : pyOp .eq ("", m) ("", m2) with
+    | false => rfl
+    | true => exact absurd (congrArg Prod.snd ((py_eq_iff _ _).mp he)) h
+
+/-- … and then they hash equal (`hash((None, module))`): the clause a hash cached before `Element.__init__` has
+settled `__name__` violates -/
+theorem C12_anon_hash (i j : Nat) (m m2 : String) (hc : Coh (.anon i m) (.anon j m2))
+    (h : binop methodPy .eq (.anon i m) (.anon j m2) = .bool true) :
+    hashOf (.anon i m) = hashOf (.anon j m2) := by
+  rw [C12_anon_eq_iff i j m m2 hc] at h
+  have : m = m2 := by simpa using h
+  simp [hashOf, this]
+
+/-- the constructor rule: a docless name with a blank ends up `None`-named, any other call keeps its name -/
+theorem mkIface_cases (id : Nat) (name module : String) (hasDoc : Bool) :
+    (hasDoc = false ∧ name.toList.any (· == ' ') = true ∧ mkIface id name module hasDoc = .anon id module) ∨
+    ((hasDoc = true ∨ name.toList.any (· == ' ') = false) ∧ mkIface id name module hasDoc = .iface id (name, module)) := by
+  unfold mkIface finalName
+  cases hasDoc <;> cases h : name.toList.any (· == ' ') <;> simp [h]
+
+/-- `None`-named interfaces sort before `None` like every other interface -/
+theorem C12_anon_none_last (i : Nat) (m : String) :
+    let x := Operand.anon i m
+    binop methodPy .lt x .none = .bool true ∧ binop methodPy .le x .none = .bool true ∧
+    binop methodPy .gt x .none = .bool false ∧ binop methodPy .ge x .none = .bool false ∧
+    binop methodPy .eq x .none = .bool false ∧ binop methodPy .ne x .none = .bool true ∧
+    binop methodPy .lt .none x = .bool false ∧ binop methodPy .le .none x = .bool false ∧
+    binop methodPy .gt .none x = .bool true ∧ binop methodPy .ge .none x = .bool true ∧
+    binop methodPy .eq .none x = .bool false ∧ binop methodPy .ne .none x = .bool true := by
+  simp [binop, methodPy, methodPy0, objectMethod, anonCompare, Operand.same, Operand.ident, swapOp, intOp]
+
+/-! ## foreign operands with comparison methods of their own: the library defers -/
+/-- a specification-like operand incl. the `None`-named interfaces -/
+def Operand.isLib : Operand → Bool
+  | .iface _ _ => true | .impl _ _ => true | .anon _ _ => true | _ => false
+/-- a foreign object without `__name__`/`__module__` -/
+def Operand.nameless : Operand → Bool
+  | .plain _ => true | .wrap _ _ _ => true | .sentinel _ _ _ => true | _ => false
+
+/-- **C12_defers**: against a foreign object that has no `__name__`/`__module__`, every comparison method of an
+interface or class specification answers `NotImplemented` — with every operator, in both implementations — so that the
+other operand's reflected method decides.  (A method answering `False`/`True` itself here is what makes `iface == x`
+and `x == iface` disagree for proxies and match-anything sentinels.) -/
+theorem not_same_of_lib_nameless (a b : Operand) (ha : a.isLib = true) (hb : b.nameless = true) (hc : Coh a b) :
+    a.same b = false := by
+  cases h : a.same b with
+  | false => rfl
+  | true => have := hc h; subst this; cases a <;> simp_all [Operand.isLib, Operand.nameless]
+
+theorem C12_defers (op : Cmp) (a b : Operand) (ha : a.isLib = true) (hb : b.nameless = true) (hc : Coh a b) :
+    methodPy op a b = Option.none ∧ methodC op a b = Option.none := by
+  have hs := not_same_of_lib_nameless a b ha hb hc
+  cases a <;> simp [Operand.isLib] at ha <;> cases b <;> simp [Operand.nameless] at hb <;> cases op <;>
+    simp [methodPy, methodC, methodPy0, methodC0, ibRichcompare, ibRichcompareAnon, mixinCompare, anonCompare, objectMethod,
+      hs, Operand.key?]
+
+theorem swapOp_swapOp (op : Cmp) : swapOp (swapOp op) = op := by cases op <;> rfl
+
+theorem same_comm (a b : Operand) : a.same b = b.same a := by
+  simp only [Operand.same]; exact Bool.eq_iff_iff.mpr ⟨fun h => by simpa using (by simpa using h : a.ident = b.ident).symm,
+    fun h => by simpa using (by simpa using h : b.ident = a.ident).symm⟩
+
+/-- **C12_reflected**: reflected comparisons agree with such operands — `a op b` and `b op' a` (`op'` the mirrored
+operator) are the same value or both `TypeError`, whatever `b`'s own methods answer -/
+theorem C12_reflected (op : Cmp) (a b : Operand) (ha : a.isLib = true) (hb : b.nameless = true) (hc : Coh a b) :
+    binop methodPy op a b = binop methodPy (swapOp op) b a ∧ binop methodC op a b = binop methodC (swapOp op) b a := by
+  have h1 := C12_defers op a b ha hb hc
+  constructor
+  · unfold binop
+    rw [swapOp_swapOp, h1.1]
+    cases methodPy (swapOp op) b a with
+    | some v => rfl
+    | none => cases op <;> simp [swapOp, same_comm a b]
+  · unfold binop
+    rw [swapOp_swapOp, h1.2]
+    cases methodC (swapOp op) b a with
+    | some v => rfl
+    | none => cases op <;> simp [swapOp, same_comm a b]
+
+/-- a transparent proxy is transparent from both sides: `iface == proxy` is what `proxy == iface` is, namely what
+`target == iface` is, i.e. equality of the `(name, module)` pairs; `!=` is its negation -/
+theorem C12_proxy (i w t : Nat) (k kt : Key) (hc : Coh (.iface t kt) (.iface i k))
+    (hw : Coh (.iface i k) (.wrap w t kt)) :
+    binop methodPy .eq (.iface i k) (.wrap w t kt) = .bool (pyOp .eq kt k) ∧
+    binop methodPy .eq (.wrap w t kt) (.iface i k) = .bool (pyOp .eq kt k) ∧
+    binop methodPy .ne (.iface i k) (.wrap w t kt) = .bool (!pyOp .eq kt k) ∧
+    binop methodPy .ne (.wrap w t kt) (.iface i k) = .bool (!pyOp .eq kt k) := by
+  have e1 : methodPy .eq (.wrap w t kt) (.iface i k) = some (pyOp .eq kt k) := by
+    show some (wrapAnswer methodPy0 .eq t kt (.iface i k)) = _
+    have := binop_iface .eq hc (b := .iface i k) rfl
+    simp only [wrapAnswer]; rw [show binop methodPy0 Cmp.eq (.iface t kt) (.iface i k) = binop methodPy .eq (.iface t kt) (.iface i k) from rfl, this]; rfl
+  have e2 : methodPy .ne (.wrap w t kt) (.iface i k) = some (!pyOp .eq kt k) := by
+    show some (wrapAnswer methodPy0 .ne t kt (.iface i k)) = _
+    have := binop_iface .ne hc (b := .iface i k) rfl
+    simp only [wrapAnswer]; rw [show binop methodPy0 Cmp.ne (.iface t kt) (.iface i k) = binop methodPy .ne (.iface t kt) (.iface i k) from rfl, this, pyOp_ne]; rfl
+  have d1 := (C12_defers .eq (.iface i k) (.wrap w t kt) rfl rfl hw).1
+  have d2 := (C12_defers .ne (.iface i k) (.wrap w t kt) rfl rfl hw).1
+  refine ⟨?_, ?_, ?_, ?_⟩
+  · unfold binop; rw [d1]; simp only [swapOp]; rw [e1]
+  · unfold binop; rw [e1]
+  · unfold binop; rw [d2]; simp only [swapOp]; rw [e2]
+  · unfold binop; rw [e2]
+
+/-- a constant-answer sentinel (`unittest.mock.ANY` is `sentinel _ true none`) gets its way from both sides -/
+theorem C12_sentinel (a : Operand) (ha : a.isLib = true) (s : Nat) (e : Bool) (o : Option Bool)
+    (hc : Coh a (.sentinel s e o)) :
+    binop methodPy .eq a (.sentinel s e o) = .bool e ∧ binop methodPy .eq (.sentinel s e o) a = .bool e ∧
+    binop methodPy .ne a (.sentinel s e o) = .bool (!e) ∧ binop methodPy .ne (.sentinel s e o) a = .bool (!e) := by
+  have d1 := (C12_defers .eq a (.sentinel s e o) ha rfl hc).1
+  have d2 := (C12_defers .ne a (.sentinel s e o) ha rfl hc).1
+  refine ⟨?_, ?_, ?_, ?_⟩
+  · unfold binop; rw [d1]; rfl
+  · rfl
+  · unfold binop; rw [d2]; rfl
+  · rfl
 
 /-! ## both implementations -/
 theorem ib_eq_py {i : Nat} {k : Key} (op : Cmp) (b : Operand) (hc : Coh (.iface i k) b) :
@@ -171,10 +323,19 @@ theorem ib_eq_py {i : Nat} {k : Key} (op : Cmp) (b : Operand) (hc : Coh (.iface 
     unfold ibRichcompare
     cases op <;> simp [hs, intOp, Operand.key?, cOp, strOp]
   · cases b with
-    | none => cases op <;> simp [ibRichcompare, methodPy, mixinCompare, Operand.same, Operand.ident, intOp]
+    | none => cases op <;> simp [ibRichcompare, methodPy, methodPy0, mixinCompare, Operand.same, Operand.ident, intOp]
     | plain j =>
       have hs' : (Operand.iface i k).same (.plain j) = false := by simpa using hs
-      cases op <;> simp [ibRichcompare, methodPy, mixinCompare, hs', Operand.key?]
+      cases op <;> simp [ibRichcompare, methodPy, methodPy0, mixinCompare, hs', Operand.key?]
+    | anon j m =>
+      have hs' : (Operand.iface i k).same (.anon j m) = false := by simpa using hs
+      cases op <;> simp [ibRichcompare, methodPy, methodPy0, mixinCompare, hs', Operand.key?]
+    | wrap j t kt =>
+      have hs' : (Operand.iface i k).same (.wrap j t kt) = false := by simpa using hs
+      cases op <;> simp [ibRichcompare, methodPy, methodPy0, mixinCompare, hs', Operand.key?]
+    | sentinel j e o =>
+      have hs' : (Operand.iface i k).same (.sentinel j e o) = false := by simpa using hs
+      cases op <;> simp [ibRichcompare, methodPy, methodPy0, mixinCompare, hs', Operand.key?]
     | iface j kb =>
       have hs' : (Operand.iface i k).same (.iface j kb) = false := by simpa using hs
       rw [methodPy_iface op hc rfl, ← c_eq_py]
@@ -188,17 +349,83 @@ theorem ib_eq_py {i : Nat} {k : Key} (op : Cmp) (b : Operand) (hc : Coh (.iface 
       rw [methodPy_iface op hc rfl, ← c_eq_py]
       cases op <;> simp [ibRichcompare, hs', Operand.key?]
 
-theorem methodC_eq_py (op : Cmp) (a b : Operand) (hc : Coh a b) : methodC op a b = methodPy op a b := by
+theorem ibAnon_eq_py {i : Nat} {m : String} (op : Cmp) (b : Operand) (hc : Coh (.anon i m) b) :
+    ibRichcompareAnon op (.anon i m) b m = methodPy op (.anon i m) b := by
+  by_cases hs : (Operand.anon i m).same b = true
+  · have := hc hs; subst this
+    rw [methodPy_anon op (fun _ => rfl), pyOp_self]
+    unfold ibRichcompareAnon
+    cases op <;> simp [hs, intOp, cOp, strOp]
+  · cases b with
+    | none => cases op <;> simp [ibRichcompareAnon, methodPy, methodPy0, anonCompare, Operand.same, Operand.ident, intOp]
+    | anon j m2 =>
+      have hs' : (Operand.anon i m).same (.anon j m2) = false := by simpa using hs
+      rw [methodPy_anon op hc, ← c_eq_py]
+      cases op <;> simp [ibRichcompareAnon, hs']
+    | plain j =>
+      have hs' : (Operand.anon i m).same (.plain j) = false := by simpa using hs
+      cases op <;> simp [ibRichcompareAnon, methodPy, methodPy0, anonCompare, hs']
+    | wrap j t kt =>
+      have hs' : (Operand.anon i m).same (.wrap j t kt) = false := by simpa using hs
+      cases op <;> simp [ibRichcompareAnon, methodPy, methodPy0, anonCompare, hs']
+    | sentinel j e o =>
+      have hs' : (Operand.anon i m).same (.sentinel j e o) = false := by simpa using hs
+      cases op <;> simp [ibRichcompareAnon, methodPy, methodPy0, anonCompare, hs']
+    | iface j kb =>
+      have hs' : (Operand.anon i m).same (.iface j kb) = false := by simpa using hs
+      cases op <;> simp [ibRichcompareAnon, methodPy, methodPy0, anonCompare, hs']
+    | impl j kb =>
+      have hs' : (Operand.anon i m).same (.impl j kb) = false := by simpa using hs
+      cases op <;> simp [ibRichcompareAnon, methodPy, methodPy0, anonCompare, hs']
+    | foreign j kb =>
+      have hs' : (Operand.anon i m).same (.foreign j kb) = false := by simpa using hs
+      cases op <;> simp [ibRichcompareAnon, methodPy, methodPy0, anonCompare, hs']
+
+/-- the methods of every operand but the proxy -/
+theorem methodC0_eq_py0 (op : Cmp) (a b : Operand) (hc : Coh a b) : methodC0 op a b = methodPy0 op a b := by
   cases a with
   | iface i k => exact ib_eq_py op b hc
+  | anon i m => exact ibAnon_eq_py op b hc
+  | _ => rfl
+
+theorem binop0_twin (op : Cmp) (a b : Operand) (hab : Coh a b) (hba : Coh b a) :
+    binop methodC0 op a b = binop methodPy0 op a b := by
+  unfold binop
+  rw [methodC0_eq_py0 op a b hab, methodC0_eq_py0 (swapOp op) b a hba]
+
+/-- what a comparison with `a` ends up comparing: `a` itself or, for a transparent proxy, its target -/
+def Operand.core : Operand → Operand
+  | .wrap _ tid k => .iface tid k
+  | x => x
+
+/-- coherence of a pair of operands of one script, proxies' targets included -/
+def CohW (a b : Operand) : Prop :=
+  Coh a b ∧ Coh b a ∧ Coh a.core b ∧ Coh b a.core ∧ Coh a b.core ∧ Coh b.core a ∧ Coh a.core b.core ∧ Coh b.core a.core
+
+theorem wrapAnswer_twin (op : Cmp) (t : Nat) (k : Key) (b : Operand)
+    (h1 : Coh (.iface t k) b) (h2 : Coh b (.iface t k)) (h3 : Coh (.iface t k) b.core) (h4 : Coh b.core (.iface t k)) :
+    wrapAnswer methodC0 op t k b = wrapAnswer methodPy0 op t k b := by
+  cases b with
+  | wrap j t2 k2 => exact congrArg Res.toBool (binop0_twin op _ _ h4 h3)
+  | _ => exact congrArg Res.toBool (binop0_twin op _ _ h1 h2)
+
+theorem methodC_eq_py (op : Cmp) (a b : Operand) (hc : Coh a b) (h1 : Coh a.core b) (h2 : Coh b a.core)
+    (h3 : Coh a.core b.core) (h4 : Coh b.core a.core) : methodC op a b = methodPy op a b := by
+  cases a with
+  | wrap i t k =>
+    cases op <;> simp only [methodC, methodPy] <;> rw [wrapAnswer_twin _ t k b h1 h2 h3 h4]
+  | iface i k => exact ib_eq_py op b hc
+  | anon i m => exact ibAnon_eq_py op b hc
   | _ => rfl
 
 /-- **C12_twin**: every comparison gives the same result (value, or `TypeError`) with the C accelerator and with the
-Python reference, for all operands whose `__name__`/`__module__` are strings -/
-theorem C12_twin (op : Cmp) (a b : Operand) (hab : Coh a b) (hba : Coh b a) :
+Python reference, for all operands of the model: interfaces, class specifications, `None`, foreign objects with string
+`__name__`/`__module__`, nameless ones with or without comparison methods of their own, `None`-named interfaces -/
+theorem C12_twin (op : Cmp) (a b : Operand) (h : CohW a b) :
     binop methodC op a b = binop methodPy op a b := by
+  obtain ⟨hab, hba, h1, h2, h5, h6, h3, h4⟩ := h
   unfold binop
-  rw [methodC_eq_py op a b hab, methodC_eq_py (swapOp op) b a hba]
+  rw [methodC_eq_py op a b hab h1 h2 h3 h4, methodC_eq_py (swapOp op) b a hba h6 h5 h4 h3]
 
 /-! ## sorting -/
 def keyLt (a b : Option Key) : Bool :=
@@ -233,7 +460,7 @@ theorem C12_lt_by_key (a b : Operand) (ha : a.isSpec = true ∨ a = .none) (hb :
     rcases ha with ha | ha
     · have := (C12_none_last a ha).1
       cases a <;> simp_all [ltB, sortKey, keyLt, Operand.isSpec, Operand.key?]
-    · subst ha; simp [ltB, binop, methodPy, objectMethod, swapOp, sortKey, keyLt]
+    · subst ha; simp [ltB, binop, methodPy, methodPy0, objectMethod, swapOp, sortKey, keyLt]
 
 theorem keyLt_irrefl (a : Option Key) : keyLt a a = false := by
   cases a <;> simp [keyLt, tupleLt_irrefl]
@@ -306,10 +533,9 @@ theorem insertSorted_sorted (x : Operand) (l : List Operand) (hs : l.Pairwise No
           · have heq := keyLt_total (by simpa using hyz) h1
             rw [heq] at hnlt; rw [hnlt] at h; exact absurd h (by simp)
 
-/-- **C12_sort**: sorting any mixed collection of interfaces, class specifications and `None` gives a permutation of
-the input that is ordered by `(name, module)` with `None` last, and is computed from the keys alone -/
-theorem C12_sort (l : List Operand) (hl : ∀ a ∈ l, a.isSpec = true ∨ a = .none)
-    (hc : ∀ a ∈ l, ∀ b ∈ l, Coh a b) :
+/-- the sort of a collection whose every `<` is the comparison of the sort keys -/
+theorem sort_by_key (l : List Operand)
+    (hk : ∀ a ∈ l, ∀ b ∈ l, ltB methodPy a b = keyLt (sortKey a) (sortKey b)) :
     sortModel (ltB methodPy) l = sortModel (fun a b => keyLt (sortKey a) (sortKey b)) l ∧
     (sortModel (ltB methodPy) l).Perm l ∧ (sortModel (ltB methodPy) l).Pairwise NotAfter := by
   have key : ∀ l' : List Operand, (∀ a ∈ l', a ∈ l) →
@@ -331,18 +557,74 @@ theorem C12_sort (l : List Operand) (hl : ∀ a ∈ l, a.isSpec = true ∨ a = .
       | cons y ys ihs =>
         have hy : y ∈ l := hmem y (List.mem_cons_self ..)
         unfold insertSorted
-        rw [C12_lt_by_key y x (hl y hy) (hl x hx) (hc y hy x hx), ihs (fun z hz => hmem z (List.mem_cons_of_mem _ hz))]
+        rw [hk y hy x hx, ihs (fun z hz => hmem z (List.mem_cons_of_mem _ hz))]
   have e := key l (fun a ha => ha)
   refine ⟨e, sortModel_perm _ l, ?_⟩
   rw [e]
-  clear e key hc hl
+  clear e key hk
   induction l with
   | nil => exact List.Pairwise.nil
   | cons x xs ih => exact insertSorted_sorted x _ ih
+
+/-- **C12_sort**: sorting any mixed collection of interfaces, class specifications and `None` gives a permutation of
+the input that is ordered by `(name, module)` with `None` last, and is computed from the keys alone -/
+theorem C12_sort (l : List Operand) (hl : ∀ a ∈ l, a.isSpec = true ∨ a = .none)
+    (hc : ∀ a ∈ l, ∀ b ∈ l, Coh a b) :
+    sortModel (ltB methodPy) l = sortModel (fun a b => keyLt (sortKey a) (sortKey b)) l ∧
+    (sortModel (ltB methodPy) l).Perm l ∧ (sortModel (ltB methodPy) l).Pairwise NotAfter :=
+  sort_by_key l (fun a ha b hb => C12_lt_by_key a b (hl a ha) (hl b hb) (hc a ha b hb))
+
+theorem C12_lt_by_key_anon (a b : Operand) (ha : a.isAnon = true ∨ a = .none) (hb : b.isAnon = true ∨ b = .none)
+    (hc : Coh a b) : ltB methodPy a b = keyLt (sortKey a) (sortKey b) := by
+  rcases ha with ha | ha
+  · cases a <;> simp [Operand.isAnon] at ha
+    rename_i i m
+    rcases hb with hb | hb
+    · cases b <;> simp [Operand.isAnon] at hb
+      rename_i j m2
+      unfold ltB
+      rw [C12_anon_order .lt i j m m2 hc]
+      simp only [sortKey, keyLt]
+      by_cases h : tupleLt ("", m) ("", m2)
+      · simp [h, (py_lt_iff _ _).mpr h]
+      · have : pyOp .lt ("", m) ("", m2) = false := by
+          cases hp : pyOp .lt ("", m) ("", m2) with
+          | false => rfl
+          | true => exact absurd ((py_lt_iff _ _).mp hp) h
+        simp [h, this]
+    · subst hb
+      have := (C12_anon_none_last i m).1
+      simp_all [ltB, sortKey, keyLt]
+  · subst ha
+    rcases hb with hb | hb
+    · cases b <;> simp [Operand.isAnon] at hb
+      rename_i j m2
+      have := (C12_anon_none_last j m2).2.2.2.2.2.2.1
+      simp_all [ltB, sortKey, keyLt]
+    · subst hb; simp [ltB, binop, methodPy, methodPy0, objectMethod, swapOp, sortKey, keyLt]
+
+/-- … and so does sorting a collection of `None`-named interfaces and `None`: by module, `None` last -/
+theorem C12_sort_anon (l : List Operand) (hl : ∀ a ∈ l, a.isAnon = true ∨ a = .none)
+    (hc : ∀ a ∈ l, ∀ b ∈ l, Coh a b) :
+    sortModel (ltB methodPy) l = sortModel (fun a b => keyLt (sortKey a) (sortKey b)) l ∧
+    (sortModel (ltB methodPy) l).Perm l ∧ (sortModel (ltB methodPy) l).Pairwise NotAfter :=
+  sort_by_key l (fun a ha b hb => C12_lt_by_key_anon a b (hl a ha) (hl b hb) (hc a ha b hb))
 
 /-- the premises are satisfiable by a non-trivial collection: equal names in different modules, a prefix-related
 name, a class specification and `None` -/
 example : let l := [Operand.none, .iface 1 ("IB", "m"), .impl 2 ("m.C", "zope.interface.declarations"), .iface 3 ("I", "n"), .iface 4 ("I", "m")]
     sortModel (ltB methodPy) l = [.iface 4 ("I", "m"), .iface 3 ("I", "n"), .iface 1 ("IB", "m"),
       .impl 2 ("m.C", "zope.interface.declarations"), .none] := by decide
+
+/-- the new operand classes evaluated: a proxy of an equal interface and of a different one, the match-anything
+sentinel, and two `None`-named interfaces of one module built from different texts -/
+example : binop methodPy .eq (.iface 1 ("I", "m")) (.wrap 9 2 ("I", "m")) = .bool true ∧
+    binop methodC .ne (.iface 1 ("I", "m")) (.wrap 9 2 ("I", "m")) = .bool false ∧
+    binop methodPy .eq (.iface 1 ("I", "m")) (.wrap 9 3 ("J", "m")) = .bool false ∧
+    binop methodPy .eq (.iface 1 ("I", "m")) (.sentinel 8 true Option.none) = .bool true ∧
+    binop methodPy .lt (.iface 1 ("I", "m")) (.sentinel 8 true Option.none) = .typeError ∧
+    binop methodPy .lt (.impl 4 ("m.C", "d")) (.sentinel 8 true (some false)) = .bool false ∧
+    binop methodPy .eq (mkIface 5 "order entry" "m" false) (mkIface 6 "order line" "m" false) = .bool true ∧
+    hashOf (mkIface 5 "order entry" "m" false) = hashOf (mkIface 6 "order line" "m" false) ∧
+    mkIface 7 "order entry" "m" true = .iface 7 ("order entry", "m") := by decide
 end ZI.Order
